@@ -97,7 +97,7 @@ def workload(ctx):
         if ctx.mine(cs):
             yield "system", {"cs": cs}
     rng = ctx.rng(1)
-    for i in range(ctx.n(900, 12000)):
+    for i in range(ctx.n(900, 60000)):
         cs = 1 + i % 7
         U1, s1, _ = gen.rotation(rng, gen.ROT_STRATA[(i // 7) % len(gen.ROT_STRATA)])
         kind = ["independent", "equivalent", "identical", "independent", "half_turn"][(i // 63) % 5]
